@@ -221,6 +221,39 @@ def materialize(pts, rep="f64"):
     raise ValueError(rep)
 
 
+SHARED = ("cols4", "interleave", "stacked", "window")
+
+
+def shared_views(ptsA, ptsB, how):
+    """Two float64 (n, 2) diagrams living in ONE buffer (columns of a wide table, interleaved rows, consecutive
+    blocks, overlapping windows of one long diagram).  Returns (viewA, viewB) or None if this pair cannot be laid out
+    that way (then the caller uses separate arrays)."""
+    if not ptsA or not ptsB:
+        return None
+    A = np.array(ptsA, dtype=np.float64).reshape(-1, 2)
+    B = np.array(ptsB, dtype=np.float64).reshape(-1, 2)
+    n, m = len(A), len(B)
+    if how == "cols4" and n == m:
+        buf = np.empty((n, 4))
+        buf[:, 0:2], buf[:, 2:4] = A, B
+        return buf[:, 0:2], buf[:, 2:4]
+    if how == "interleave" and n == m:
+        buf = np.empty((2 * n, 2))
+        buf[0::2], buf[1::2] = A, B
+        return buf[0::2], buf[1::2]
+    if how == "window" and n == m:
+        # B is A moved on by k rows in one longer diagram
+        for k in range(1, n):
+            if np.array_equal(A[k:], B[:n - k], equal_nan=True):
+                buf = np.vstack([A, B[n - k:]])
+                return buf[:n], buf[k:k + n]
+        return None
+    if how == "stacked":
+        buf = np.vstack([A, B])
+        return buf[:n], buf[n:]
+    return None
+
+
 def check_diagram_json(pts):
     from sim.sched import InvalidCase
     if not isinstance(pts, list):
